@@ -39,7 +39,7 @@ CHECKS = {
             "every declaration of generated type-stable programs must be able to hold the Python types a tracer saw for that name; printed values are compared as in C01",
             "an int held in a C float is not a narrowing; witnesses of open findings re-run"),
     "C03": ("exploration", "metamorphic 4-way trace equality (P / P' on firmware and CPython)", "differential",
-            "pairs that Python cannot tell apart (literal vs variable vs name-free expression; dead and live mutations) over 13 fold sites are executed on both sides",
+            "pairs that Python cannot tell apart (literal vs variable vs name-free expression; dead and live mutations) over 26 fold sites (device arguments, len/flash-pattern/glyph tables, loop counts, generated constant expressions, values derived after a change, resets, if/else joins) are executed on both sides",
             "branch conditions read a scripted analog input so that the folder cannot decide them; accept/reject asymmetry is not judged"),
     "C04": ("exploration", "per-pin level/time trace monitor vs instrumented host classes + clamp monitor on raw pin events", "differential",
             "random in-range actuator histories are compared event by event with the host classes; out-of-range histories are checked by a range monitor on analogWrite/servo events",
@@ -48,14 +48,14 @@ CHECKS = {
             "markers exactly once / once per pass in source order; pinMode/Serial.begin/attach/LCD begin before first use; button sampled once per pass first; main-loop break rejected",
             "scripts declaring a device inside the loop body are not compared with CPython (fresh Python object per pass vs one hoisted device)"),
     "C06": ("exploration", "compiler-as-oracle monitor (g++ AVR-like front end, no C++ std headers) + structure monitor + string-escape differential", "differential",
-            "every accepted script of three generators is compiled; a sample is linked against the mock libraries; string-literal fuzz is run and compared with CPython",
+            "every accepted script of the generators (core language, devices, lists, polymorphic helpers, collision/context corpus, the same call twice per block, 140 boundary-value calls judged when the host classes run them) is compiled; a sample is linked against the mock libraries; string-literal fuzz is run and compared with CPython",
             "g++ -std=gnu++11 -fpermissive -nostdinc++ approximates avr-gcc; exceptions left enabled"),
     "C09": ("exploration", "ASan+UBSan (explore then gate runs) + valgrind memcheck sample + per-pass live-heap monitor vs CPython live-data measure", "differential",
             "list/str-heavy programs run for 6 passes under the sanitizers; heap bytes after each pass must not grow while Python's live data is constant",
             "red-zone sanitizers: 'no report on these executions', not memory safety; __sanitizer_get_current_allocated_bytes is the heap ledger"),
     "C15": ("exploration", "trace monitors with scripted digitalRead/analogRead/pulseIn tapes and a virtual clock + host Button replay", "differential",
             "reads per pass, on_click vs rising edges, is_pressed vs sample, analogRead freshness, trigger count/spacing, retry and fallback value are checked on the firmware log",
-            "60 ms rule judged between triggers whose predecessor happened at millis() > 0"),
+            "60 ms rule judged between triggers whose predecessor happened after the first millisecond since reset; the mock core's unsigned long is 32 bits wide and clocks start near the 2^32 ms roll-over in a third of the cases"),
     "C16": ("exploration", "tone-protocol state machine replayed over tone/noTone/delay events + pinned score table", "differential",
             "every buzzer call of random histories (literal and run-time, incl. zero/negative arguments) is judged between per-call serial markers",
             "score table pinned in the check; host Buzzer is a no-op stub, so the oracle is the specification"),
@@ -64,7 +64,7 @@ CHECKS = {
             "ASCII text; in-range row/column; inexact progress bars may differ by one cell and are wiped before the next comparison"),
     "C18": ("exploration", "per-pass frame/time monitor on the firmware + icontract postconditions on host LCD.animate/tick under random tick schedules", "differential",
             "no delay in the injected tick, frames inside the row, static rows untouched, pacing >= speed_ms, non-looping stop within 2(len+cols)+4 steps, looping still active after >= 3B passes",
-            "unbounded 'never stops' restated as bounded progress"),
+            "unbounded 'never stops' restated as bounded progress; 32-bit millis() roll-over inside the run; one animation per row"),
 }
 
 NOT_YET = {}
